@@ -1375,6 +1375,11 @@ impl ASN1Value {
                     ..
                 })) = referenced
                 {
+                    // an identifier that names no value is an enumeral or named number
+                    // of the governing type and resolved below
+                    let Some(next_value @ ToplevelDefinition::Value(_)) = tlds.get(next) else {
+                        break;
+                    };
                     if hops > tlds.len() {
                         return Err(grammar_error!(
                             LinkerError,
@@ -1383,7 +1388,7 @@ impl ASN1Value {
                         ));
                     }
                     hops += 1;
-                    referenced = tlds.get(next);
+                    referenced = Some(next_value);
                 }
                 if let Some(ToplevelDefinition::Value(tld)) = referenced {
                     *self = tld.value.clone();
